@@ -96,17 +96,13 @@ template<bool OX, bool OY, int B0, int R0, int R1> static void scenario() {
     VWITNESS("done");
     if (OX || OY) { VWITNESS("enclosing-let-shadowed"); } else { VWITNESS("outer-scope-global"); }
 }
-// quick tier: the scope-sensitive shapes (each scenario costs ~1 min of SAT time: std::string / std::vector<pair<PTRef,std::string>> inside
-// addLetFrame live on CBMC's byte-level heap), two scenarios per entry, selected symbolically
-extern "C" void h_let_swap() {              // (let ((x y) (y x)) ..): outer scope global / both names bound by an enclosing let
-    if (nondet_bool()) scenario<false, false, 0, 1, 0>(); else scenario<true, true, 0, 1, 0>();
-}
-extern "C" void h_let_second_uses_first() { // (let ((x z) (y x)) ..): x global / x bound by an enclosing let
-    if (nondet_bool()) scenario<false, false, 0, 2, 0>(); else scenario<true, false, 0, 2, 0>();
-}
-extern "C" void h_let_first_uses_second() { // (let ((x y) (y z)) ..) and (let ((y x) (x z)) ..) with the used name bound by an enclosing let
-    if (nondet_bool()) scenario<false, false, 0, 1, 2>(); else scenario<true, false, 1, 0, 2>();
-}
-extern "C" void h_let_self_and_free() {     // (let ((x x) (y y)) ..) under an enclosing let of both; (let ((x z) (y z)) ..)
-    if (nondet_bool()) scenario<true, true, 0, 0, 1>(); else scenario<false, false, 0, 2, 2>();
-}
+// quick tier: the scope-sensitive shapes, one concrete scenario per entry (each costs ~1 min of SAT time: std::string and
+// std::vector<pair<PTRef,std::string>> inside addLetFrame live on CBMC's byte-level heap)
+extern "C" void h_let_swap()                { scenario<false, false, 0, 1, 0>(); }   // (let ((x y) (y x)) ..), x, y global
+extern "C" void h_let_swap_nested()         { scenario<true, true, 0, 1, 0>(); }     // same under an enclosing let of x and y
+extern "C" void h_let_second_uses_first()   { scenario<false, false, 0, 2, 0>(); }   // (let ((x z) (y x)) ..), x global
+extern "C" void h_let_second_uses_first_nested() { scenario<true, false, 0, 2, 0>(); } // x bound by an enclosing let
+extern "C" void h_let_first_uses_second()   { scenario<false, false, 0, 1, 2>(); }   // (let ((x y) (y z)) ..)
+extern "C" void h_let_first_uses_second_rev() { scenario<true, false, 1, 0, 2>(); }  // (let ((y x) (x z)) ..), x bound by an enclosing let
+extern "C" void h_let_self_nested()         { scenario<true, true, 0, 0, 1>(); }     // (let ((x x) (y y)) ..) under an enclosing let
+extern "C" void h_let_free()                { scenario<false, false, 0, 2, 2>(); }   // (let ((x z) (y z)) ..)
